@@ -54,3 +54,33 @@ Print Assumptions C03_address.
 
 Example C03_example : get_icao [10;0;0;0;1;8;3;8;3;0;0;0;0;0;0;0;0;0;0;0;0;0;7;10;13;10;5;9] 20 = Ok (Some 7453696).
 Proof. vm_compute. reflexivity. Qed.
+
+(** ---- over all histories: a row is filed under the address it shows ---- *)
+From SQ Require Import Base Table Update ExpiryProof RowIdentity.
+
+
+(** invariant of the reader step: every row (k, r) of the table has icao r = k, the country of k, k non-zero and below 2^24 *)
+Theorem C03_row_identity_step : forall (o : opts) (now : Z) (s : state) (line : list N) (s' : state) (rf : bool) (oc : line_outcome), step_line o now s line = Ok (s', rf, oc) -> row_ident (tbl s) -> row_ident (tbl s').
+Proof. exact step_line_row_ident. Qed.
+Check C03_row_identity_step : forall (o : opts) (now : Z) (s : state) (line : list N) (s' : state) (rf : bool) (oc : line_outcome), step_line o now s line = Ok (s', rf, oc) -> row_ident (tbl s) -> row_ident (tbl s').
+Print Assumptions C03_row_identity_step.
+
+(** ... preserved by any list of lines *)
+Theorem C03_row_identity_run : forall (o : opts) (now : Z) (ls : list (option (list N))) (s s' : state), run_lines o now s ls = Ok s' -> row_ident (tbl s) -> row_ident (tbl s').
+Proof. exact run_lines_row_ident. Qed.
+Check C03_row_identity_run : forall (o : opts) (now : Z) (ls : list (option (list N))) (s s' : state), run_lines o now s ls = Ok s' -> row_ident (tbl s) -> row_ident (tbl s').
+Print Assumptions C03_row_identity_run.
+
+(** ... and by any timed history (every line at its own clock value) *)
+Theorem C03_row_identity_timed : forall (o : opts) (ls : list (Z * list N)) (s s' : state), run_timed o s ls = Ok s' -> row_ident (tbl s) -> row_ident (tbl s').
+Proof. exact run_timed_row_ident. Qed.
+Check C03_row_identity_timed : forall (o : opts) (ls : list (Z * list N)) (s s' : state), run_timed o s ls = Ok s' -> row_ident (tbl s) -> row_ident (tbl s').
+Print Assumptions C03_row_identity_timed.
+
+(** every row of every table reachable from the empty one shows the address it is filed under: no frame is ever attributed to another address, and the address is a non-zero 24-bit value *)
+Theorem C03_row_identity_reachable : forall (o : opts) (now : Z) (bs : list N) (t' : table), read_lines o now [] bs = Ok t' -> forall (k : N) (r : row), lookup t' k = Some r -> icao r = k /\ reg r = icao_to_country k /\ k <> 0 /\ k < 16777216.
+Proof. exact reachable_row_ident. Qed.
+Check C03_row_identity_reachable : forall (o : opts) (now : Z) (bs : list N) (t' : table), read_lines o now [] bs = Ok t' -> forall (k : N) (r : row), lookup t' k = Some r -> icao r = k /\ reg r = icao_to_country k /\ k <> 0 /\ k < 16777216.
+Print Assumptions C03_row_identity_reachable.
+
+
